@@ -503,7 +503,7 @@ class Mahony:
             # ECF
             omega_mes = np.cross(acc/a_norm, v_a)   # Cost function (eqs. 32c and 48a)
             bDot = -self.k_I*omega_mes                   # Estimated change in Gyro bias (eqs.32b and 48c)
-            self.b += bDot * dt                          # Estimated Gyro bias
+            self.b = self.b + bDot * dt                          # Estimated Gyro bias
             Omega = Omega - self.b + self.k_P*omega_mes  # Gyro correction
         p = np.array([0.0, *Omega])
         qDot = 0.5*q.product(p)                     # Rate of change of quaternion (eqs. 45 and 48b)
